@@ -32,13 +32,13 @@ PROPS = {
     'C11': dict(lean_quick=['Props.C11Fin'], prefixes=['p16e1::math', 'p8e0::math']),
     'C18': dict(lean_quick=['Props.C18'], prefixes=['polynom']),
     'C19': dict(lean_quick=['Props.C19'], prefixes=['p8e0::{impl#15}', 'p16e1::{impl#15}', 'p32e2::{impl#15}'], assumptions=['rand 0.8: gen_range(lo..hi) returns a value in [lo, hi)']),
-    'C16': dict(lean_quick=['Props.C01Fin', 'Props.C03Fin', 'Props.C06Fin', 'Props.C07Fin', 'Props.C08Fin', 'Props.C09Fin', 'Props.C10Fin', 'Props.C11Fin', 'Props.C17Fin', 'Props.C05ShardQuick', 'Props.C04Hist', 'Props.C19', 'Props.C13', 'Props.C14'],
+    'C16': dict(lean_quick=['Props.C01Fin', 'Props.C03Fin', 'Props.C06Fin', 'Props.C07Fin', 'Props.C08Fin', 'Props.C09Fin', 'Props.C10Fin', 'Props.C11Fin', 'Props.C17Fin', 'Props.C05ShardQuick', 'Props.C04Hist', 'Props.C04Hist16', 'Props.C12Q8', 'Props.C19', 'Props.C13', 'Props.C14'],
                 totality=True, all_theorems=True, prefixes=['']),
     'C15': dict(lean_quick=['Props.C15', 'Props.C15Pi'], prefixes=['p32e2::math::sleef', 'polynom', 'quire32'], oracle15=True),
     'C13': dict(lean_quick=['Props.C13'], prefixes=['pxe1', 'pxe2']),
     'C14': dict(lean_quick=['Props.C14'], prefixes=['pxe1', 'pxe2', 'convert']),
-    'C04': dict(lean_quick=['Props.C04', 'Props.C04Hist'], prefixes=['quire8', 'quire16', 'quire32']),
-    'C12': dict(lean_quick=['Props.C12'], prefixes=['quire8', 'quire16', 'quire32']),
+    'C04': dict(lean_quick=['Props.C04', 'Props.C04Hist', 'Props.C04Hist16', 'Props.C12Q8'], prefixes=['quire8', 'quire16', 'quire32']),
+    'C12': dict(lean_quick=['Props.C12', 'Props.C12Q8'], prefixes=['quire8', 'quire16', 'quire32']),
 }
 # thorough tier: the P8E0 exhaustive theorems re-proved by kernel evaluation only (`decide +kernel`; axioms: propext, Classical.choice, Quot.sound)
 for _p, _m in {'C01': ['Props.C01FinKer', 'Props.C01ShardKer'], 'C03': ['Props.C03FinKer'], 'C06': ['Props.C06FinKer'], 'C07': ['Props.C07FinKer'], 'C08': ['Props.C08FinKer'], 'C09': ['Props.C09FinKer'], 'C10': ['Props.C10FinKer'], 'C11': ['Props.C11FinKer'], 'C17': ['Props.C17FinKer']}.items(): PROPS[_p]['lean_thorough'] = PROPS[_p].get('lean_thorough', []) + _m
@@ -184,6 +184,28 @@ def quire_history(qt, rng, maxlen=24, state_ops=True):
             a = P(); toks += ['ap', a, (-a) & ((1 << n) - 1)]
     return qt + ' hist ' + ' '.join(x if isinstance(x, str) else '%x' % x for x in toks)
 
+def quire_history_px(N, rng, maxlen=10):
+    """the same grammar on Q32E2 with PxE2<N> operands: N-bit posit patterns left-aligned in 32 bits (no inherent mp/ms methods)"""
+    line = quire_history('q32' if N > 16 else ('q16' if N > 8 else 'q8'), rng, maxlen=maxlen)
+    src = 32 if N > 16 else (16 if N > 8 else 8)
+    toks = line.split()[2:]
+    out = []; i = 0
+    arity = {'ap': 2, 'sp': 2, 'a1': 1, 's1': 1, 'ap2': 3, 'sp2': 3, 'ap3': 4, 'ap22': 4, 'sp22': 4, 'mp': 2, 'ms': 2, 'tp': 2, 'ts': 2, 'neg': 0, 'clear': 0, 'rt': 0, 'fp': 1}
+    def cv(t):
+        v = int(t, 16)                       # a `src`-bit pattern: keep its top N bits as the N-bit posit
+        v = (v >> (src - N)) if src >= N else (v << (N - src))
+        if src == 8 and N > 8: pass
+        return '%x' % ((v & ((1 << N) - 1)) << (32 - N))
+    while i < len(toks):
+        t = toks[i]
+        if t in ('apa', 'spa'):
+            k = int(toks[i + 2], 16)
+            out += [t, cv(toks[i + 1]), toks[i + 2]] + [cv(x) for x in toks[i + 3:i + 3 + k]]; i += 3 + k
+        else:
+            k = arity[t]
+            out += [{'mp': 'tp', 'ms': 'ts'}.get(t, t)] + [cv(x) for x in toks[i + 1:i + 1 + k]]; i += 1 + k
+    return 'q32 histpx %x %s' % (N, ' '.join(out))
+
 _TRIG = {}
 def trig_worst_cases(count):
     """the P32E2 patterns in the reduced range (|x| < 393216) that lie closest — relative to the multiplier q — to a multiple
@@ -247,6 +269,15 @@ def extra_streams(pid, tier, rng, scale):
                         trip = [toks[i:i + 3] for i in range(0, len(toks), 3)]
                         rng.shuffle(trip)
                         lines.append(qt + ' hist ' + ' '.join(' '.join(t) for t in trip))
+    if pid in ('C14', 'C16', 'C17'):
+        # Q32E2 with generic-width operands: PxE2<N>::from(&q), Quire<PxE2<N>>::to_posit, PxE2<N>::from(q) after a history
+        cntpx = {'C14': 600, 'C16': 120, 'C17': 120}[pid] * scale * big
+        for N in range(2, 33):
+            for _ in range(cntpx):
+                lines.append(quire_history_px(N, rng))
+            sh = 32 - N
+            for a in range(1 << min(N, 9)):          # every (or the first 512) single N-bit posit(s): quire round trip
+                lines.append('q32 histpx %x fp %x' % (N, a << sh)); lines.append('q32 histpx %x a1 %x' % (N, ((a << (N - min(N, 9))) & ((1 << N) - 1)) << sh))
     if pid == 'C17':
         # agreement pairs: the spelled operation and the inherent one on IDENTICAL inputs (compared pairwise by the check)
         for ty in TYPES:
